@@ -19,6 +19,7 @@ import (
 func init() {
 	register("C11", checkC11)
 	replayers["c11/mirror"] = replayC11
+	replayers["c11/concrete"] = replayConc
 }
 
 type c11Runner struct {
@@ -29,6 +30,11 @@ type c11Runner struct {
 	// nontrivial: the DD Step of the last case changed state beyond PC/R or made a data access
 	nontrivial bool
 	skipped    bool
+	// watch: during run i the index register the form must not use (0 none, 1 IY, 2 IX) and its value;
+	// midBad: a callback saw another value there
+	watch    [2]int
+	watchVal [2]uint16
+	midBad   [2]string
 }
 
 func newC11Runner(bg *[65536]uint8) *c11Runner {
@@ -39,6 +45,21 @@ func newC11Runner(bg *[65536]uint8) *c11Runner {
 		r.io[i] = &obs.IO{}
 		r.cpu[i].Memory = r.mem[i]
 		r.cpu[i].IO = r.io[i]
+		i := i
+		look := func() {
+			switch r.watch[i] {
+			case 1:
+				if v := r.cpu[i].IY; v != r.watchVal[i] && r.midBad[i] == "" {
+					r.midBad[i] = fmt.Sprintf("during a device callback of the DD form IY reads %04X (before the Step: %04X)", v, r.watchVal[i])
+				}
+			case 2:
+				if v := r.cpu[i].IX; v != r.watchVal[i] && r.midBad[i] == "" {
+					r.midBad[i] = fmt.Sprintf("during a device callback of the FD form IX reads %04X (before the Step: %04X)", v, r.watchVal[i])
+				}
+			}
+		}
+		r.mem[i].Hook = func(bool, uint16) { look() }
+		r.io[i].Hook = func(bool, uint8) { look() }
 	}
 	return r
 }
@@ -55,7 +76,14 @@ func (r *c11Runner) run(i int, cs *Case, prefix uint8, s *refz80.State) (refz80.
 	r.io[i].X, r.io[i].Y, r.io[i].Fixed = cs.IOX, cs.IOY, cs.IOFixed
 	toCPU(s, &r.cpu[i])
 	r.cpu[i].Interrupt = nil
+	r.midBad[i] = ""
+	if prefix == 0xDD {
+		r.watch[i], r.watchVal[i] = 1, s.IY
+	} else {
+		r.watch[i], r.watchVal[i] = 2, s.IX
+	}
 	p := c02Step(&r.cpu[i])
+	r.watch[i] = 0
 	return fromCPU(&r.cpu[i]), p
 }
 
@@ -123,6 +151,11 @@ func (r *c11Runner) one(cs *Case) []string {
 	if !obs.SamePorts(r.io[0].Log, r.io[1].Log) {
 		d = append(d, fmt.Sprintf("port logs differ: DD %s FD %s", fmtPorts(r.io[0].Log), fmtPorts(r.io[1].Log)))
 	}
+	for i := 0; i < 2; i++ {
+		if r.midBad[i] != "" {
+			d = append(d, r.midBad[i]+": the form must neither read nor write the other index register, at any time a device can look")
+		}
+	}
 	if len(d) > 0 {
 		r.diff = d
 		return d
@@ -189,7 +222,7 @@ func checkC11(c *Ctx) {
 		fs = append(fs, 0x44, 0x81, 0xC5, 0x3A)
 	}
 	lat := newLattice(c.Salt, false)
-	c.Rule = fmt.Sprintf("all 255 second bytes after DD/FD and all 256 fourth bytes after DDCB/FDCB (implemented or not) x lattice (as C01 quick, IX and IY independent and distinct; all 256 d for forms with a displacement) x %d F values; per case 4 real Steps: DD(s), FD(mirror s), DD(s with IY flipped), FD(mirror s with IX flipped); no reference model. Non-trivial = the DD Step changed state beyond PC/R or made a data access (counted).", len(fs))
+	c.Rule = fmt.Sprintf("all 255 second bytes after DD/FD and all 256 fourth bytes after DDCB/FDCB (implemented or not) x lattice (as C01 quick, IX and IY independent and distinct; all 256 d for forms with a displacement) x %d F values; per case 4 real Steps: DD(s), FD(mirror s), DD(s with IY flipped), FD(mirror s with IX flipped); no reference model; during every device callback the other index register holds its value. Concrete-type pass: both forms of every byte on DumbMemory (len 65536, 65536+256, 32768) and MapMemory handed over unwrapped vs behind an opaque wrapper (same post-state and contents), which carries the symmetry over to the package's own device types. Non-trivial = the DD Step changed state beyond PC/R or made a data access (counted).", len(fs))
 	c.Bound = fmt.Sprintf("lattice v1 quick x %d F", len(fs))
 	bg := obsBackground(c)
 	runners := make([]*c11Runner, 16)
@@ -251,6 +284,19 @@ func checkC11(c *Ctx) {
 	c.Transitions = c.Evaluations * 4
 	c.Traces = c.Evaluations
 	c.Set("second_and_fourth_bytes", len(encs))
+	// the same forms on the package's concrete memory types: a type-switched fast path in one form only
+	// would break the symmetry for embedders that use DumbMemory/MapMemory directly
+	var both []*Enc
+	var fdEncs []Enc
+	for i := range encs {
+		fixed := append([]uint8{}, encs[i].Fixed...)
+		fixed[0] = 0xFD
+		fdEncs = append(fdEncs, buildEnc(fixed))
+	}
+	for i := range encs {
+		both = append(both, &encs[i], &fdEncs[i])
+	}
+	runConcreteTypes(c, "c11/concrete", both, []uint8{0x45, 0xBA})
 	c.Exhaustive = true
 	var cs Case
 	p := baseVector(0)
